@@ -131,20 +131,30 @@ theorem current_generation_stored (s s' : Sys) (l : Nat) (ok : Bool) (f : Flight
 /-! ### at most one flight / backend fetch per (cache generation, key) -/
 
 /-- in every reachable state two flights with the same (generation, key) are the same flight -/
-theorem at_most_one_flight_per_key (reqs : List (Key × Int × Bool)) (run : List Label) (s : Sys)
+theorem at_most_one_flight_per_generation_and_key (reqs : List (Key × Int × Bool)) (run : List Label) (s : Sys)
     (h : exec (init reqs) run = some s) (f1 f2 : Flight) (h1 : f1 ∈ s.flights) (h2 : f2 ∈ s.flights)
     (hg : f1.gen = f2.gen) (hk : f1.key = f2.key) : f1 = f2 :=
   flights_unique (exec_inv (inv_init reqs) h).nodup h1 h2 hg hk
 
 /-- hence at most one backend fetch is running per (generation, key): two running loaders of the same
     (generation, key) are the same invocation -/
-theorem at_most_one_fetch_per_key (reqs : List (Key × Int × Bool)) (run : List Label) (s : Sys)
+theorem at_most_one_fetch_per_generation_and_key (reqs : List (Key × Int × Bool)) (run : List Label) (s : Sys)
     (h : exec (init reqs) run = some s) (f1 f2 : Flight) (h1 : f1 ∈ s.flights) (h2 : f2 ∈ s.flights)
     (l1 l2 : Nat) (hl1 : f1.pc = .loading l1) (hl2 : f2.pc = .loading l2)
     (hg : f1.gen = f2.gen) (hk : f1.key = f2.key) : l1 = l2 := by
-  have := at_most_one_flight_per_key reqs run s h f1 f2 h1 h2 hg hk
+  have := at_most_one_flight_per_generation_and_key reqs run s h f1 f2 h1 h2 hg hk
   subst this
   rw [hl1] at hl2; cases hl2; rfl
+
+/-- per KEY: among the fetches of the current cache generation — the only ones whose result can still be stored or
+    reach a request that starts now — at most one is running.  (Fetches begun before a reset may still be running
+    beside it: their results go only to the requests that were already waiting for them; see the example below.) -/
+theorem at_most_one_current_fetch_per_key (reqs : List (Key × Int × Bool)) (run : List Label) (s : Sys)
+    (h : exec (init reqs) run = some s) (f1 f2 : Flight) (h1 : f1 ∈ s.flights) (h2 : f2 ∈ s.flights)
+    (l1 l2 : Nat) (hl1 : f1.pc = .loading l1) (hl2 : f2.pc = .loading l2)
+    (hc1 : f1.gen = s.gen) (hc2 : f2.gen = s.gen) (hk : f1.key = f2.key) : l1 = l2 :=
+  at_most_one_fetch_per_generation_and_key reqs run s h f1 f2 h1 h2 l1 l2 hl1 hl2 (hc1.trans hc2.symm) hk
+
 
 /-- a loader is called only from a flight's re-check, and only when the flight is of an older generation (its
     result will be discarded) or the cache holds no live entry for the key -/
